@@ -1,4 +1,4 @@
 SPECIFICATION Spec
-INVARIANT RecordOK
+INVARIANTS Report AllAccepted
 POSTCONDITION TraceAccepted
 CHECK_DEADLOCK FALSE
